@@ -53,6 +53,9 @@ type Transport struct {
 	mu       sync.Mutex
 	shutdown bool
 	conns    []net.Conn
+	// WriteErr, when set, is consulted for every datagram: a non-nil result is what
+	// the send system call returns (the packet is not sent).
+	WriteErr func(to string) error
 }
 
 var _ memberlist.Transport = (*Transport)(nil)
@@ -83,9 +86,15 @@ func (t *Transport) FinalAdvertiseAddr(ip string, port int) (net.IP, int, error)
 func (t *Transport) WriteTo(b []byte, addr string) (time.Time, error) {
 	t.mu.Lock()
 	down := t.shutdown
+	werr := t.WriteErr
 	t.mu.Unlock()
 	if down {
 		return time.Time{}, fmt.Errorf("simnet: transport shut down")
+	}
+	if werr != nil {
+		if err := werr(addr); err != nil {
+			return time.Time{}, err
+		}
 	}
 	buf := make([]byte, len(b))
 	copy(buf, b)
